@@ -396,12 +396,23 @@ def ocaml_build():
     lines = open(os.path.join(COQ, "_CoqProject")).read().splitlines()
     if "Extract/All.v" not in lines:
         open(os.path.join(COQ, "_CoqProject"), "a").write("Extract/All.v\n")
-    if not os.listdir(os.path.join(COQ, "extracted_all")):
+    # the extracted code contains the generated tables and functions: it is stale whenever a Gen file differs from the one it was
+    # extracted from (make cannot see that when compiled files were put back from the saved copy), so the extraction is stamped
+    gh = hashlib.sha1(allv.encode())
+    for f in sorted(os.listdir(os.path.join(COQ, "Gen"))):
+        if f.endswith(".v"):
+            gh.update(f.encode()); gh.update(open(os.path.join(COQ, "Gen", f), "rb").read())
+    gstamp = os.path.join(COQ, "extracted_all", ".gen_stamp")
+    if not (os.path.exists(gstamp) and open(gstamp).read() == gh.hexdigest()):
+        for f in os.listdir(os.path.join(COQ, "extracted_all")):
+            os.remove(os.path.join(COQ, "extracted_all", f))
+    if not [f for f in os.listdir(os.path.join(COQ, "extracted_all")) if f.endswith(".ml")]:
         try: os.remove(os.path.join(COQ, "Extract", "All.vo"))
         except OSError: pass
     ok, txt, cmd = coq_make(["Extract/All.vo"])
     if not ok:
         return False, txt
+    open(gstamp, "w").write(gh.hexdigest())
     with Lock():
         ext = os.path.join(COQ, "extracted_all")
         names = set()
